@@ -36,7 +36,8 @@ RULE = (
     "wrong type, returns a NotCompleted, returns a falsy-but-valid value}; entry points apply_to (fresh store, "
     "resumed store, default logger) and as_completed; extra input kinds: in-memory objects carrying their own "
     "source (not proxied) and raw python values, both including falsy ones. Parallel histories use "
-    "apply_to/as_completed(parallel=True, par_kw={'max_workers': w}) with w in {1,2,3,8} and per-input completion "
+    "apply_to/as_completed(parallel=True, par_kw={'max_workers': w[, 'chunksize': c]}) with w in {1,2,3,8}, c in "
+    "{1,2,3,5} and input counts hitting every residue mod c (incl. a single input and n=c+1), and per-input completion "
     "deadlines computed from a target completion permutation (identity, reverse, first-submitted-last, "
     "last-submitted-first, evens-then-odds, random), released by a gate once the worker processes have picked up "
     "their first task; the realised order is read from the history (yield events) and each parallel history is "
@@ -109,12 +110,14 @@ def gen_cases(rng, tier):
             (1, "reverse", 4, "dir", "apply_to", "str"),
             (8, "last-first", 6, "dir", "as_completed", "member"),
         ]
-        for w, t, n, store, entry, inputs in grid:
-            cases.append({"kind": "parallel", "seed": rng.randrange(2**32), "workers": w, "target": t, "n": n, "store": store, "entry": entry, "inputs": inputs})
+        grid_chunks = [3, 3, 2, 5, 5, 5, 2, 3, 5, 1, 3, None]  # par_kw chunksize of the grid histories (None: not passed)
+        for (w, t, n, store, entry, inputs), c in zip(grid, grid_chunks):
+            cases.append({"kind": "parallel", "seed": rng.randrange(2**32), "workers": w, "target": t, "n": n, "store": store, "entry": entry, "inputs": inputs, "chunksize": c})
+        cases.extend(chunk_cases(rng, 4))
         for _ in range(20):
             cases.append({"kind": "serial", "seed": rng.randrange(2**32), "n": 5, "max_inputs": 10})
     else:
-        for i in range(200):
+        for i in range(180):
             w = 1 if i % 10 == 0 else [2, 3, 8][i % 3]
             inputs = rng.choice(["str", "str", "path", "member", "member", "dstore", "items", "values"])
             entry = "as_completed" if inputs == "values" else ("apply_to" if inputs == "items" else rng.choice(["apply_to", "apply_to", "as_completed"]))
@@ -124,12 +127,15 @@ def gen_cases(rng, tier):
                     "seed": rng.randrange(2**32),
                     "workers": w,
                     "target": TARGETS[i % len(TARGETS)] if i % 7 else "random",
-                    "n": 24 if i % 5 == 0 else rng.randint(2, 24),
+                    "n": 24 if i % 5 == 0 else rng.randint(1, 24),
                     "store": rng.choice(["dir", "sql", "fasta"]),
                     "entry": entry,
                     "inputs": inputs,
+                    "chunksize": rng.choice([None, 1, 2, 3, 5]),
                 }
             )
+        cases.extend(chunk_cases(rng, 8))
+        cases.extend(chunk_cases(rng, 8))
         for _ in range(100):
             cases.append({"kind": "serial", "seed": rng.randrange(2**32), "n": 10, "max_inputs": 24})
     cases.append({"kind": "direct", "seed": rng.randrange(2**32), "n": 40 if tier == "quick" else 400})
@@ -137,6 +143,27 @@ def gen_cases(rng, tier):
     cases.append({"kind": "fixed", "store": "fasta", "variant": "str"})
     cases.append({"kind": "fixed", "store": "dir", "variant": "set-of-str"})
     return cases
+
+
+CHUNKSIZES = [1, 2, 3, 5]
+# (n inputs, chunksize): every residue of n modulo the chunksize, including a single input and n = chunksize + 1
+CHUNK_TABLE = [(1, 1), (2, 1), (1, 2), (2, 2), (3, 2), (1, 3), (3, 3), (4, 3), (5, 3), (1, 5), (5, 5), (6, 5), (7, 5), (8, 5), (9, 5)]
+
+
+def chunk_cases(rng, nbatches):
+    """par_kw={'max_workers': w, 'chunksize': c}: chunking is documented and must make no observable difference.
+    Small 2-3 worker histories, batched so that the harness workers get similar loads"""
+    subs = []
+    for i, (n, c) in enumerate(CHUNK_TABLE):
+        inputs = ["str", "member", "path", "dstore", "items", "values"][i % 6]
+        entry = "as_completed" if inputs == "values" or (i % 4 == 3 and inputs != "items") else "apply_to"
+        subs.append(
+            {"kind": "parallel", "seed": rng.randrange(2**32), "workers": 2 + i % 2, "target": "reverse", "n": n,
+             "store": ["dir", "sql", "fasta"][i % 3], "entry": entry, "inputs": inputs, "chunksize": c}
+        )  # fmt: skip
+    # longest first, dealt round-robin
+    subs.sort(key=lambda x: -x["n"])
+    return [{"kind": "parallel-batch", "items": subs[j::nbatches]} for j in range(nbatches)]
 
 
 # ---------------------------------------------------------------------------
@@ -618,7 +645,7 @@ def wrap_as_completed(W, app, log, sink=None):
     app.as_completed = rec
 
 
-def run_history(W, world, plan, parallel=False, workers=None, delays=None, store_path=None, subset=None):
+def run_history(W, world, plan, parallel=False, workers=None, delays=None, store_path=None, subset=None, chunksize=None):
     """one call of apply_to / as_completed on the real code. Returns the observation dict."""
     run_dir = os.path.dirname(store_path) if store_path else world.new_run_dir()
     log = os.path.join(run_dir, f"history-{world.count}-{time.monotonic_ns()}.jsonl")
@@ -645,6 +672,8 @@ def run_history(W, world, plan, parallel=False, workers=None, delays=None, store
         th = threading.Thread(target=gate_keeper, args=(log, gate, need, stop), daemon=True)
         th.start()
     kw = {"parallel": True, "par_kw": {"max_workers": workers}} if parallel else {"parallel": False}
+    if parallel and chunksize is not None:
+        kw["par_kw"]["chunksize"] = chunksize
     out = None
     try:
         if W["entry"] == "apply_to":
@@ -1074,7 +1103,7 @@ def case_parallel(res, case):
         plan = W["plan"]
         # the serial companion first (also the reference for (6))
         ser = run_history(W, world, plan, parallel=False)
-        replay = {"kind": "parallel", "seed": case["seed"], "workers": workers, "target": case["target"], "n": case["n"], "store": W["store"], "entry": W["entry"], "inputs": W["inputs"]}
+        replay = {"kind": "parallel", "seed": case["seed"], "workers": workers, "target": case["target"], "n": case["n"], "store": W["store"], "entry": W["entry"], "inputs": W["inputs"], "chunksize": case.get("chunksize")}
         s_out = check_history(res, W, ser, plan, "serial", replay=replay)
         res.count("histories:serial")
         n = len(ser["keys"])
@@ -1083,7 +1112,7 @@ def case_parallel(res, case):
         par = None
         for attempt in range(4):
             d = deadlines(order, gap)
-            par = run_history(W, world, plan, parallel=True, workers=workers, delays=d)
+            par = run_history(W, world, plan, parallel=True, workers=workers, delays=d, chunksize=case.get("chunksize"))
             res.count("histories:parallel")
             got = realised_order(par)
             if got != list(range(len(got))) or order == list(range(n)) or workers == 1 or n < 2:
@@ -1097,6 +1126,8 @@ def case_parallel(res, case):
         res.count(f"pair:workers={workers}/{oc}")
         res.count("order:" + hashlib.sha1(repr((n, got)).encode()).hexdigest()[:10])
         res.count("parallel:target-realised" if got == predict(d, workers) else "parallel:target-not-realised")
+        c = case.get("chunksize")
+        res.count(f"chunksize:{c}/n-mod-c={n % c}" + ("/single-input" if n == 1 else "/n=c+1" if n == c + 1 else "") if c else "chunksize:not-passed")
         pids = {e["pid"] for e in par["events"] if e["ev"] == "start"}
         res.count(f"parallel:worker-processes-used={min(len(pids), 8)}")
         if os.getpid() in pids:
@@ -1234,6 +1265,9 @@ def run_case(case):
     kind = case["kind"]
     if kind == "parallel":
         case_parallel(res, case)
+    elif kind == "parallel-batch":
+        for sub in case["items"]:
+            case_parallel(res, sub)
     elif kind == "serial":
         case_serial(res, case)
     elif kind == "direct":
@@ -1261,6 +1295,12 @@ def required(counters, tier):
     for k in ("histories:serial", "histories:parallel", "pass-through:observed", "direct:not-completed-through-chain", "resume:kept-completed", "writer-level:reached"):
         if counters.get(k, 0) < 1:
             miss.append(f"{k} never reached")
+    for c in CHUNKSIZES:
+        for r in range(c):
+            if not any(k.startswith(f"chunksize:{c}/n-mod-c={r}") for k in counters):
+                miss.append(f"no parallel history with chunksize={c} and n mod chunksize = {r}")
+        if c > 1 and not any(k.startswith(f"chunksize:{c}/") and k.endswith("/single-input") for k in counters):
+            miss.append(f"no single-input parallel history with chunksize={c}")
     if counters.get("falsy-input:dropped", 0) + counters.get("falsy-input:recorded", 0) < 1:
         miss.append("no falsy input was submitted")
     return miss
